@@ -1,7 +1,7 @@
 #pragma once
 #include <stddef.h>
 #include <stdint.h>
-enum { MT_SIM = 0, MT_TICKET = 1, MT_SIMPLE = 2 };
+enum { MT_SIM = 0, MT_TICKET = 1, MT_SIMPLE = 2, MT_SIMTRY = 3, MT_N = 4 }; // SIMTRY: the simulated mutex with a try_lock() member
 extern "C" {
 size_t sut_domain_size(int mt);
 size_t sut_agent_size(int mt);
